@@ -29,3 +29,13 @@ META.update({
    text="Every (site, occurrence, batch, fill, shape) injection is run with panics caught and loop iterations counted; with 1..5 threads parked holding indices a free thread must finish each loop in exactly one iteration and return dropped/None as appropriate.",
    note="boundaries = hook sites; arbitrary instructions only statistically; spurious CAS failure only under Miri"),
 })
+META.update({
+ "C09": dict(engine="native (+asan in thorough)", category="exploration",
+   technique="runtime monitoring: burst / quiesce / stable-state probe (/proc thread state, FIONREAD, SigPnd) + offline accounting of deliveries vs yields; real deliveries nested on the consumer at its failpoints",
+   text="At every stable point (hundreds per quick run, tens of thousands in thorough) a delivered watched signal without a later yield, with the consumer blocked on an empty self-pipe, is a refutation that does not depend on timing. Covers wait, forever and the non-blocking poll interface, three exfiltrators, add_signal from another thread.",
+   note="unbounded 'eventually' restated as absence of the stable lost state; windows are widened at hook sites only"),
+ "C10": dict(engine="native (+asan in thorough)", category="exploration",
+   technique="runtime monitoring: unique per-delivery sequence numbers, independent witness action copying each siginfo, online accounting rules over the event log",
+   text="Every yield is checked against the deliveries that had begun; every raw record is compared byte-for-byte with the witness copy of the same delivery and checked for duplication and per-signal delivery order; bursts exceed the 5-slot buffer.",
+   note="count bound uses all brackets of the signal since add_signal was called (sound upper bound)"),
+})
